@@ -105,6 +105,21 @@ for _u, _l in ((0xC0, 0xE0), (0xD6, 0xF6), (0xD8, 0xF8), (0x391, 0x3B1), (0x392,
     _CASE[_u] = _l; _CASE[_l] = _u
 
 
+def full_case_variants(cp):
+    """all single-character case relatives according to python's tables (used by a quirk model only)"""
+    ch = chr(cp)
+    out = {cp}
+    for t in (ch.lower(), ch.upper(), ch.title(), ch.casefold()):
+        if len(t) == 1:
+            out.add(ord(t))
+    for o in list(out):
+        c2 = chr(o)
+        for t in (c2.lower(), c2.upper(), c2.title()):
+            if len(t) == 1:
+                out.add(ord(t))
+    return out
+
+
 def case_variants(cp):
     o = _CASE.get(cp)
     return (cp,) if o is None else (cp, o)
@@ -197,7 +212,7 @@ def _icase_has(leaf, cp, env):
     if k == 'cls':
         if leaf[3] is not None and 'icase-subtraction-closure' in env.quirks:
             # engine: negation and subtraction are applied first, the resulting set is then closed under case
-            return any(_plain_has(leaf, v, env) for v in case_variants(cp))
+            return any(_plain_has(leaf, v, env) for v in full_case_variants(cp))
         r = any(_icase_has(it, cp, env) for it in leaf[2])
         if leaf[1]:
             r = not r
@@ -1620,5 +1635,33 @@ def leading_dot_closure(ast):
                 if first(c): return True
                 if not nullable_ast(c): return False
             return False
+        return False
+    return first(ast)
+
+
+def leading_dot_alternative(ast):
+    """some match can begin with a '.' that stands in a second or later branch of an alternation"""
+    def starts_with_dot(n):
+        k = n[0]
+        if k == 'dot': return True
+        if is_leaf(n) or k in ('eps', 'bol', 'eol'): return False
+        if k in ('grp', 'rep'): return starts_with_dot(n[1])
+        if k == 'alt': return any(starts_with_dot(c) for c in n[1])
+        if k == 'seq':
+            for c in n[1]:
+                if starts_with_dot(c): return True
+                if not nullable_ast(c): return False
+        return False
+
+    def first(n):
+        k = n[0]
+        if is_leaf(n) or k in ('eps', 'bol', 'eol'): return False
+        if k in ('grp', 'rep'): return first(n[1])
+        if k == 'alt':
+            return any(starts_with_dot(c) for c in n[1][1:]) or any(first(c) for c in n[1])
+        if k == 'seq':
+            for c in n[1]:
+                if first(c): return True
+                if not nullable_ast(c): return False
         return False
     return first(ast)
